@@ -6,7 +6,7 @@ From Mos Require Import Base.Prelude Codec.Name Codec.Msg Codec.NameProofs Codec
 (* Name decoding terminates for EVERY octet list and offset — pointer loops included — within a
    concrete fuel bound, and never indexes out of range (safe = not Panic and not OutOfFuel). *)
 Theorem C01_name_terminates : forall (msg : list N) (off fuel : nat),
-  264 < fuel -> safe (unpack_name_go fuel msg off 0 off []).
+  381 < fuel -> safe (unpack_name_go fuel msg off 0 off []).
 Proof. exact unpack_name_terminates. Qed.
 Print Assumptions C01_name_terminates.
 
